@@ -8,7 +8,7 @@ from .common import TOL
 
 PROPERTY = "C10"
 LEVEL = "exploration"
-RUNS = {"quick": 1500, "thorough": 60000}
+RUNS = {"quick": 4000, "thorough": 60000}
 RULE = ("seeded sequences of 1-10 datagrams presented by a scripted peer to a real endpoint: type {CON,NON,ACK,RST} x "
         "code class {empty, request, response 2/4/5, reserved 1/6, signalling 7} x token {matches an outstanding "
         "request, unknown} x destination {unicast, multicast ff02::fd} x handler {fast, EMPTY_ACK_DELAY -/+ epsilon, "
